@@ -49,7 +49,7 @@ Proof. intros a id H. exact H. Qed.
 Lemma ext_trans s1 s2 s3 : ext s1 s2 -> ext s2 s3 -> ext s1 s3.
 Proof. intros H1 H2 a id H. apply H2, H1, H. Qed.
 
-Lemma ext_cons s a id nx :
+Lemma ext_cons s (a : addr) id nx :
   named_find a (g_named s) = None -> ext s (mkIst ((a, id) :: g_named s) nx).
 Proof.
   intros Hn b idb Hb. simpl. destruct (b =? a) eqn:E.
@@ -218,3 +218,912 @@ Proof.
 Qed.
 
 End Termination.
+
+(* ------------------------------------------------------------------------- *)
+(* the boolean hypotheses give the rank and closedness used above              *)
+
+Lemma hget_In h a n : hget h a = Some n -> In (a, n) h.
+Proof.
+  induction h as [|[a' n'] h IH]; simpl; [discriminate|].
+  destruct (a =? a') eqn:E.
+  - intro H. inversion H; subst. apply N.eqb_eq in E. subst. left. reflexivity.
+  - intro H. right. apply IH, H.
+Qed.
+
+Lemma fold_max_le {A} (g : A -> option nat) (l : list A) (m0 B : nat) :
+  (m0 <= B)%nat -> (forall x v, In x l -> g x = Some v -> (v <= B)%nat) ->
+  (fold_left (fun m x => match g x with Some v => Nat.max m v | None => m end) l m0 <= B)%nat.
+Proof.
+  revert m0. induction l as [|x l IH]; intros m0 H0 H; simpl; [exact H0|].
+  apply IH.
+  - destruct (g x) as [v|] eqn:E; [|exact H0]. assert (v <= B)%nat by (eapply H; [left; reflexivity | exact E]). lia.
+  - intros y v Hy. apply H. right. exact Hy.
+Qed.
+
+Lemma rank_of_le h dups fuel a : (rank_of h dups fuel a <= fuel)%nat.
+Proof.
+  revert a. induction fuel as [|f IH]; intro a; simpl; [lia|].
+  destruct (hget h a) as [n|]; [|lia].
+  set (g := fun lr : label * ref => match snd lr with
+                                    | Some b => if mem b dups then None else Some (S (rank_of h dups f b))
+                                    | None => None end).
+  assert (E : forall l m0,
+             fold_left (fun m (lr : label * ref) =>
+                          match snd lr with
+                          | Some b => if mem b dups then m else Nat.max m (S (rank_of h dups f b))
+                          | None => m end) l m0 =
+             fold_left (fun m x => match g x with Some v => Nat.max m v | None => m end) l m0).
+  { induction l as [|x l IHl]; intro m0; simpl; [reflexivity|]. rewrite IHl. f_equal.
+    unfold g. destruct (snd x) as [b|]; [destruct (mem b dups)|]; reflexivity. }
+  rewrite E. apply fold_max_le; [lia|].
+  intros x v _ Hg. unfold g in Hg. destruct (snd x) as [b|]; [|discriminate].
+  destruct (mem b dups); [discriminate|]. inversion Hg. specialize (IH b). lia.
+Qed.
+
+Lemma cover_ok_drop h dups :
+  cover_ok h dups = true ->
+  forall a n l b, hget h a = Some n -> In (l, Some b) (nkids n) -> mem b dups = false ->
+    (rank_of h dups (length h) b < rank_of h dups (length h) a)%nat.
+Proof.
+  intros Hc a n l b Hg Hin Hm. unfold cover_ok in Hc. rewrite forallb_forall in Hc.
+  specialize (Hc _ (hget_In _ _ _ Hg)). simpl in Hc. rewrite forallb_forall in Hc.
+  specialize (Hc _ Hin). simpl in Hc. rewrite Hm in Hc. simpl in Hc. apply Nat.ltb_lt in Hc. exact Hc.
+Qed.
+
+Lemma closed_kids h root :
+  closed h root = true ->
+  forall a n l b, hget h a = Some n -> In (l, Some b) (nkids n) -> exists n', hget h b = Some n'.
+Proof.
+  intros Hc a n l b Hg Hin. unfold closed in Hc. rewrite forallb_forall in Hc.
+  assert (Hb : In (Some b) (root :: all_kids h)).
+  { right. unfold all_kids. apply in_flat_map. exists (a, n). split; [apply hget_In; exact Hg|].
+    simpl. apply in_map_iff. exists (l, Some b). split; [reflexivity | exact Hin]. }
+  specialize (Hc _ Hb). simpl in Hc. destruct (hget h b) as [n'|]; [eauto | discriminate].
+Qed.
+
+Lemma closed_root h root :
+  closed h root = true -> match root with Some a => exists n, hget h a = Some n | None => True end.
+Proof.
+  intro Hc. unfold closed in Hc. rewrite forallb_forall in Hc.
+  specialize (Hc root (or_introl eq_refl)). destruct root as [a|]; [|exact I].
+  destruct (hget h a) as [n|]; [eauto | discriminate].
+Qed.
+
+Lemma filter_length_all {A} (p : A -> bool) l : (length (filter p l) <= length l)%nat.
+Proof. induction l as [|x l IH]; simpl; [lia|]. destruct (p x); simpl; lia. Qed.
+
+(* graph_marshal_terminates *)
+Theorem graph_marshal_terminates h dups omit_never root :
+  closed h root = true -> cover_ok h dups = true ->
+  exists t s, gtrav h dups omit_never (graph_fuel h dups) root ist0 = Some (t, s).
+Proof.
+  intros Hc Hk.
+  apply gtrav_total with (rk := rank_of h dups (length h)) (L := length h).
+  - intro a. apply rank_of_le.
+  - apply cover_ok_drop. exact Hk.
+  - apply (closed_kids _ _ Hc).
+  - apply closed_root. exact Hc.
+  - unfold need, graph_fuel. destruct root as [a|]; [|lia].
+    assert (unnamed dups ist0 <= length dups)%nat by apply filter_length_all.
+    assert (rank_of h dups (length h) a <= length h)%nat by apply rank_of_le.
+    destruct (mem a dups); nia.
+Qed.
+
+Corollary iterate_graph_terminates h dups omit_never root :
+  closed h root = true -> cover_ok h dups = true ->
+  exists es, iterate_graph h dups omit_never root = Some es.
+Proof.
+  intros Hc Hk. destruct (graph_marshal_terminates h dups omit_never root Hc Hk) as [t [s E]].
+  unfold iterate_graph, iterate_tree. rewrite E. eauto.
+Qed.
+
+(* more nested calls never change an answer *)
+Section Mono.
+Variable h : heap.
+Variable dups : list addr.
+Variable omit_never : bool.
+
+Lemma kids_mono tr tr' :
+  (forall r s x, tr r s = Some x -> tr' r s = Some x) ->
+  forall sf ks s x, gtrav_kids h omit_never tr sf ks s = Some x -> gtrav_kids h omit_never tr' sf ks s = Some x.
+Proof.
+  intros Htr sf ks. induction ks as [|[l r] ks IH]; intros s x H; simpl in *; [exact H|].
+  destruct (sf && negb omit_never && empty_target h r).
+  - destruct (gtrav_kids h omit_never tr sf ks s) as [[ts s']|] eqn:E; [|discriminate].
+    rewrite (IH _ _ E). exact H.
+  - destruct (tr r s) as [[t s1]|] eqn:E1; [|discriminate]. rewrite (Htr _ _ _ E1).
+    destruct (gtrav_kids h omit_never tr sf ks s1) as [[ts s']|] eqn:E; [|discriminate].
+    rewrite (IH _ _ E). exact H.
+Qed.
+
+Lemma gtrav_S f a s :
+  gtrav h dups omit_never (S f) (Some a) s =
+  match hget h a with
+  | None => None
+  | Some n =>
+      if mem a dups then
+        match named_find a (g_named s) with
+        | Some id => Some (TRef id, s)
+        | None =>
+            match gtrav_kids h omit_never (gtrav h dups omit_never f) (is_struct n) (nkids n)
+                             (mkIst ((a, g_next s) :: g_named s) ((g_next s + 1) mod 4294967296)) with
+            | Some (ts, s') => Some (TNode a (Some (g_next s)) (nkind n) ts, s')
+            | None => None
+            end
+        end
+      else
+        match gtrav_kids h omit_never (gtrav h dups omit_never f) (is_struct n) (nkids n) s with
+        | Some (ts, s') => Some (TNode a None (nkind n) ts, s')
+        | None => None
+        end
+  end.
+Proof. reflexivity. Qed.
+
+Lemma gtrav_mono_S fuel : forall r s x,
+  gtrav h dups omit_never fuel r s = Some x -> gtrav h dups omit_never (S fuel) r s = Some x.
+Proof.
+  induction fuel as [|f IH]; intros r s x H.
+  - destruct r as [a|]; simpl in *; [discriminate | exact H].
+  - destruct r as [a|]; [|exact H].
+    rewrite gtrav_S in H. rewrite gtrav_S.
+    destruct (hget h a) as [n|]; [|discriminate].
+    destruct (mem a dups).
+    + destruct (named_find a (g_named s)); [exact H|].
+      destruct (gtrav_kids h omit_never (gtrav h dups omit_never f) (is_struct n) (nkids n) _) as [[ts s']|] eqn:E; [|discriminate].
+      rewrite (kids_mono _ _ IH _ _ _ _ E). exact H.
+    + destruct (gtrav_kids h omit_never (gtrav h dups omit_never f) (is_struct n) (nkids n) s) as [[ts s']|] eqn:E; [|discriminate].
+      rewrite (kids_mono _ _ IH _ _ _ _ E). exact H.
+Qed.
+
+Lemma gtrav_mono fuel fuel' r s x :
+  (fuel <= fuel')%nat -> gtrav h dups omit_never fuel r s = Some x -> gtrav h dups omit_never fuel' r s = Some x.
+Proof.
+  intro Hle. induction Hle as [|m Hle IH]; intro H; [exact H|]. apply gtrav_mono_S, IH, H.
+Qed.
+End Mono.
+
+(* ------------------------------------------------------------------------- *)
+(* Part 2: the builder stack on the events of a call tree                      *)
+
+Section TmInd.
+Variable P : tm -> Prop.
+Hypothesis HOmit : P TOmit.
+Hypothesis HNull : P TNull.
+Hypothesis HRef : forall id, P (TRef id).
+Hypothesis HNode : forall a m k kids, Forall (fun lt : label * tm => P (snd lt)) kids -> P (TNode a m k kids).
+Fixpoint tm_ind' (t : tm) : P t :=
+  match t with
+  | TOmit => HOmit
+  | TNull => HNull
+  | TRef id => HRef id
+  | TNode a m k kids =>
+      HNode a m k kids
+        ((fix go (l : list (label * tm)) : Forall (fun lt : label * tm => P (snd lt)) l :=
+            match l with
+            | [] => Forall_nil _
+            | x :: r => Forall_cons x (tm_ind' (snd x)) (go r)
+            end) kids)
+  end.
+End TmInd.
+
+Lemma field_name_not_payload l l' t' :
+  field_find (field_label_name l) 0 fields = Some (l', t') -> bytes_eqb (field_label_name l) payload_name = false.
+Proof.
+  destruct l as [i|i|k]; simpl; try discriminate.
+  destruct (N.to_nat i) as [|[|[|[|[|j]]]]]; simpl; try reflexivity; try discriminate.
+  destruct j; discriminate.
+Qed.
+
+Arguments field_find : simpl never.
+Arguments field_label_name : simpl never.
+
+(* what a frame does with a reference / how a container frame receives the label of its next child *)
+Definition frame_addr (f : bframe) : option addr :=
+  match f with FStructKey p | FSlice p _ | FMapKey p => Some p | _ => None end.
+Definition kid_frame (f : bframe) (l : label) : option bframe :=
+  match f, l with
+  | FStructKey p, LF _ =>
+      match field_find (field_label_name l) 0 fields with
+      | Some (l', t') => Some (FStructVal p l' t')
+      | None => None
+      end
+  | FSlice p n, LI _ => Some (FSlice p n)
+  | FMapKey p, LK k => Some (FMapVal p k)
+  | _, _ => None
+  end.
+Definition kind_begin (k : kind) : event := match k with KSlice => EList | _ => EMap end.
+Definition after_begin (k : kind) (cf : bframe) (s : bst) : option bst :=
+  match k, cf with
+  | KStruct v, FStructKey p => Some (b_payload p v s)
+  | KSlice, FSlice _ _ => Some s
+  | KMap, FMapKey _ => Some s
+  | _, _ => None
+  end.
+
+Section Eff.
+(* the two operations of the reference filler, abstracted *)
+Variable oref : bytes -> slot -> bst -> bst.
+Variable omark : bytes -> addr -> bst -> bst.
+
+Definition ref_step (id : bytes) (f : bframe) (s : bst) : option (bframe * bst) :=
+  match f with
+  | FStructVal p l _ => Some (FStructKey p, oref id (p, l) s)
+  | FSlice p n => Some (FSlice p (n + 1), oref id (p, LI n) (b_set (p, LI n) None s))
+  | FMapVal p k => Some (FMapKey p, oref id (p, LK k) s)
+  | _ => None
+  end.
+
+Section Kids.
+Variable ev : tm -> bframe -> bst -> option (bframe * bst).
+Fixpoint eff_kids (ks : list (label * tm)) (cf : bframe) (s : bst) : option (bframe * bst) :=
+  match ks with
+  | [] => Some (cf, s)
+  | (l, t') :: r =>
+      if is_omit t' then eff_kids r cf s
+      else match kid_frame cf l with
+           | None => None
+           | Some vf => match ev t' vf s with
+                        | Some (cf', s') => eff_kids r cf' s'
+                        | None => None
+                        end
+           end
+  end.
+End Kids.
+
+(* the denotation of a call tree delivered to the frame f *)
+Fixpoint eff_val (t : tm) (f : bframe) (s : bst) : option (bframe * bst) :=
+  match t with
+  | TOmit => None
+  | TNull => deliver None f s
+  | TRef id => ref_step (dec_bytes id) f s
+  | TNode _ m k kids =>
+      match frame_ty f with
+      | None => None
+      | Some ty =>
+          match begin_container ty (kind_begin k) s with
+          | None => None
+          | Some (cf, s1) =>
+              match after_begin k cf s1 with
+              | None => None
+              | Some s1' =>
+                  match eff_kids eff_val kids cf s1' with
+                  | None => None
+                  | Some (cf', s2) =>
+                      match frame_addr cf' with
+                      | None => None
+                      | Some p => deliver (Some p) f (match m with Some id => omark (dec_bytes id) p s2 | None => s2 end)
+                      end
+                  end
+              end
+          end
+      end
+  end.
+End Eff.
+
+Definition kids_events (kids : list (label * tm)) : list event :=
+  flat_map (fun lt : label * tm => match lt with (l, t') => if is_omit t' then [] else label_events l ++ flatten t' end) kids.
+
+Lemma flatten_node a m k kids :
+  flatten (TNode a m k kids) =
+  (match m with Some id => [EMarker (dec_bytes id)] | None => [] end) ++ kind_events k ++ kids_events kids ++ [EEnd].
+Proof. reflexivity. Qed.
+
+Lemma brun_app st es1 es2 :
+  brun st (es1 ++ es2) = match brun st es1 with Some st' => brun st' es2 | None => None end.
+Proof.
+  revert st. induction es1 as [|e es1 IH]; intro st; simpl; [reflexivity|].
+  destruct (bstep st e); [apply IH | reflexivity].
+Qed.
+
+(* container frames stay container frames of the same object *)
+Definition container_frame (f : bframe) : bool :=
+  match f with FStructKey _ | FSlice _ _ | FMapKey _ => true | _ => false end.
+
+Lemma deliver_frame v f s f' s' :
+  deliver v f s = Some (f', s') ->
+  frame_ty f <> None /\ (f = FTop /\ f' = FTop \/ container_frame f' = true).
+Proof.
+  destruct f; simpl; intro H; try discriminate.
+  - inversion H; subst. split; [discriminate | left; auto].
+  - destruct v, t; inversion H; subst; split; try discriminate; right; reflexivity.
+  - inversion H; subst. split; [discriminate | right; reflexivity].
+  - inversion H; subst. split; [discriminate | right; reflexivity].
+Qed.
+
+Lemma kid_frame_ty cf l vf : kid_frame cf l = Some vf -> frame_ty vf <> None /\ vf <> FTop /\ container_frame cf = true.
+Proof.
+  destruct cf, l; simpl; intro H; try discriminate.
+  - destruct (field_find _ 0 fields) as [[l' t']|]; [|discriminate]. inversion H; subst. simpl. repeat split; discriminate.
+  - inversion H; subst. simpl. repeat split; discriminate.
+  - inversion H; subst. simpl. repeat split; discriminate.
+Qed.
+
+Lemma label_step cf l vf stk s :
+  kid_frame cf l = Some vf ->
+  brun (cf :: stk, s) (label_events l) = Some (vf :: stk, s).
+Proof.
+  destruct cf, l; simpl; intro H; try discriminate.
+  - destruct (field_find _ 0 fields) as [[l' t']|] eqn:E; [|discriminate]. inversion H; subst.
+    rewrite (field_name_not_payload _ _ _ E). reflexivity.
+  - inversion H; subst. reflexivity.
+  - inversion H; subst. reflexivity.
+Qed.
+
+Lemma brun_eff t :
+  forall f s f' s' stk rest,
+    eff_val b_ref b_mark t f s = Some (f', s') ->
+    brun (f :: stk, s) (flatten t ++ rest) = brun (f' :: stk, s') rest.
+Proof.
+  induction t as [| |id|a m k kids IHk] using tm_ind'; intros f s f' s' stk rest H.
+  - discriminate.
+  - simpl in H. simpl. rewrite H. reflexivity.
+  - simpl in H. simpl. unfold ref_step in H.
+    destruct f; try discriminate; inversion H; subst; reflexivity.
+  - cbn [eff_val] in H.
+    destruct (frame_ty f) as [ty|] eqn:Ety; [|discriminate].
+    destruct (begin_container ty (kind_begin k) s) as [[cf s1]|] eqn:Eb; [|discriminate].
+    destruct (after_begin k cf s1) as [s1'|] eqn:Ea; [|discriminate].
+    destruct (eff_kids (eff_val b_ref b_mark) kids cf s1') as [[cf' s2]|] eqn:Ek; [|discriminate].
+    destruct (frame_addr cf') as [p|] eqn:Ep; [|discriminate].
+    (* the children *)
+    assert (Hkids : forall stk' rest',
+               brun (cf :: stk', s1') (kids_events kids ++ rest') = brun (cf' :: stk', s2) rest').
+    { clear H Eb Ea Ep. revert cf s1' Ek.
+      induction kids as [|[l t'] kids IHl]; intros cf s1' Ek stk' rest'; simpl in Ek.
+      - inversion Ek; subst. reflexivity.
+      - inversion IHk as [|x xs Hx Hxs]; subst. simpl in Hx.
+        unfold kids_events. simpl. fold (kids_events kids).
+        destruct (is_omit t') eqn:Eo.
+        + simpl. apply IHl; assumption.
+        + destruct (kid_frame cf l) as [vf|] eqn:Ev; [|discriminate].
+          destruct (eff_val b_ref b_mark t' vf s1') as [[cf1 s1'']|] eqn:E1; [|discriminate].
+          rewrite <- !app_assoc. rewrite brun_app. rewrite (label_step _ _ _ _ _ Ev).
+          rewrite (Hx _ _ _ _ stk' _ E1). apply IHl; assumption. }
+    (* the frame on which the container sits *)
+    assert (Hbegin : forall stk0, value_frame stk0 = Some f ->
+               brun (stk0, s) (kind_events k) = Some (cf :: stk0, s1')).
+    { intros stk0 Hv. unfold begin_container, b_alloc in Eb.
+      destruct k as [v| |]; destruct ty; cbn [kind_begin] in Eb; try discriminate;
+        inversion Eb; subst; cbn [after_begin] in Ea; try discriminate; inversion Ea; subst;
+        cbn [kind_events brun bstep]; rewrite Hv, Ety; cbn [begin_container b_alloc];
+        [ change (AT_String =? AT_String) with true; cbn [negb bytes_eqb list_eqb payload_name N.eqb Pos.eqb andb]; reflexivity
+        | reflexivity | reflexivity ]. }
+    assert (Hcf' : container_frame cf' = true).
+    { destruct cf'; simpl in Ep; try discriminate; reflexivity. }
+    assert (Hfm : forall id0, f <> FMarker id0).
+    { intros id0 ->. simpl in Ety. discriminate. }
+    rewrite flatten_node. destruct m as [id|].
+    + rewrite <- !app_assoc. simpl ((_ :: _) ++ _).
+      cbn [brun bstep]. rewrite Ety.
+      rewrite brun_app. rewrite (Hbegin (FMarker (dec_bytes id) :: f :: stk) eq_refl).
+      rewrite brun_app. rewrite <- (app_nil_r (kids_events kids)) at 1.
+      rewrite Hkids. cbn [brun]. cbn [app brun].
+      destruct cf'; simpl in Ep; try discriminate; inversion Ep; subst; cbn [bstep]; rewrite H; reflexivity.
+    + simpl ([] ++ _). rewrite <- !app_assoc.
+      rewrite brun_app. rewrite (Hbegin (f :: stk)).
+      2:{ destruct f; try reflexivity. exfalso. eapply Hfm; reflexivity. }
+      rewrite brun_app. rewrite <- (app_nil_r (kids_events kids)) at 1.
+      rewrite Hkids. cbn [brun]. cbn [app brun].
+      destruct cf'; simpl in Ep; try discriminate; inversion Ep; subst; cbn [bstep];
+        (destruct f; try (exfalso; eapply Hfm; reflexivity); rewrite H; reflexivity).
+Qed.
+
+Lemma build_graph_eff t s' r :
+  eff_val b_ref b_mark t FTop bst0 = Some (FTop, s') -> b_root s' = Some r ->
+  build_graph (doc_events t) = RtOk (b_heap s') r.
+Proof.
+  intros H Hr. unfold build_graph, doc_events. cbn [brun bstep].
+  rewrite (brun_eff t FTop bst0 FTop s' [] [EEndDoc] H). cbn [brun bstep]. rewrite Hr. reflexivity.
+Qed.
+
+(* ------------------------------------------------------------------------- *)
+(* Part 3: deferred setters against an oracle                                  *)
+
+Lemma hget_hupd_same h a f : hget (hupd h a f) a = option_map f (hget h a).
+Proof.
+  induction h as [|[a' n] h IH]; simpl; [reflexivity|].
+  destruct (a =? a') eqn:E; simpl; rewrite E; [reflexivity | exact IH].
+Qed.
+Lemma hget_hupd_other h a b f : a <> b -> hget (hupd h a f) b = hget h b.
+Proof.
+  intro Hne. induction h as [|[a' n] h IH]; simpl; [reflexivity|].
+  destruct (a =? a') eqn:E; simpl.
+  - apply N.eqb_eq in E. subst. destruct (b =? a') eqn:E2; [apply N.eqb_eq in E2; congruence | reflexivity].
+  - destruct (b =? a'); [reflexivity | exact IH].
+Qed.
+Lemma kget_kset_same l v ks : kget l (kset l v ks) = Some v.
+Proof.
+  induction ks as [|[l' r] ks IH]; simpl.
+  - rewrite label_eqb_refl. reflexivity.
+  - destruct (label_eqb l l') eqn:E; simpl; rewrite E; [reflexivity | exact IH].
+Qed.
+Lemma kget_kset_other l l' v ks : l <> l' -> kget l' (kset l v ks) = kget l' ks.
+Proof.
+  intro Hne. induction ks as [|[l0 r] ks IH]; simpl.
+  - rewrite label_eqb_neq; [reflexivity | congruence].
+  - destruct (label_eqb l l0) eqn:E; simpl.
+    + apply label_eqb_eq in E. subst. rewrite (label_eqb_neq l' l0); [reflexivity | congruence].
+    + destruct (label_eqb l' l0); [reflexivity | exact IH].
+Qed.
+
+Lemma bytes_eqb_refl b : bytes_eqb b b = true.
+Proof. apply bytes_eqb_eq. reflexivity. Qed.
+Lemma bytes_eqb_neq a b : a <> b -> bytes_eqb a b = false.
+Proof. intro H. destruct (bytes_eqb a b) eqn:E; [apply bytes_eqb_eq in E; contradiction | reflexivity]. Qed.
+
+Definition slot_of (f : bframe) : option slot :=
+  match f with
+  | FStructVal p l _ => Some (p, l)
+  | FSlice p n => Some (p, LI n)
+  | FMapVal p k => Some (p, LK k)
+  | _ => None
+  end.
+Definition next_frame (f : bframe) : bframe :=
+  match f with
+  | FStructVal p _ _ => FStructKey p
+  | FSlice p n => FSlice p (n + 1)
+  | FMapVal p k => FMapKey p
+  | f => f
+  end.
+
+Lemma deliver_next v f s f' s' : deliver v f s = Some (f', s') -> f' = next_frame f.
+Proof.
+  destruct f; simpl; intro H; try discriminate; try (inversion H; subst; reflexivity).
+  destruct v, t; inversion H; subst; reflexivity.
+Qed.
+Lemma eff_val_next oref omark t f s f' s' : eff_val oref omark t f s = Some (f', s') -> f' = next_frame f.
+Proof.
+  destruct t; cbn [eff_val]; intro H; try discriminate.
+  - eapply deliver_next; eauto.
+  - unfold ref_step in H. destruct f; try discriminate; inversion H; subst; reflexivity.
+  - destruct (frame_ty f); [|discriminate].
+    destruct (begin_container _ _ _) as [[cf s1]|]; [|discriminate].
+    destruct (after_begin _ _ _); [|discriminate].
+    destruct (eff_kids _ _ _ _) as [[cf' s2]|]; [|discriminate].
+    destruct (frame_addr cf'); [|discriminate]. eapply deliver_next; eauto.
+Qed.
+
+Lemma NoDup_app_single {A} (l : list A) x : NoDup l -> ~ In x l -> NoDup (l ++ [x]).
+Proof.
+  induction l as [|y l IH]; intros Hn Hx; simpl.
+  - constructor; [intros [] | constructor].
+  - inversion Hn; subst. constructor.
+    + intro Hin. apply in_app_or in Hin. destruct Hin as [Hin|[->|[]]]; [contradiction|]. apply Hx. left. reflexivity.
+    + apply IH; [assumption|]. intro. apply Hx. right. assumption.
+Qed.
+
+Section Sim.
+Variable M : bytes -> option addr.
+
+Definition oref_i (id : bytes) (sl : slot) (s : bst) : bst := b_set sl (M id) s.
+Definition omark_i (id : bytes) (x : addr) (s : bst) : bst := s.
+
+Definition pending (s : bst) (sl : slot) : Prop := exists id, In (id, sl) (b_pend s).
+
+Record Sim (sr si : bst) : Prop := mkSim {
+  sim_next : b_next sr = b_next si;
+  sim_root : b_root sr = b_root si;
+  sim_dom : forall p, match hget (b_heap sr) p, hget (b_heap si) p with
+                      | Some nr, Some ni => nkind nr = nkind ni
+                      | None, None => True
+                      | _, _ => False
+                      end;
+  sim_slot : forall p l nr ni, hget (b_heap sr) p = Some nr -> hget (b_heap si) p = Some ni ->
+               ~ pending sr (p, l) -> kget l (nkids nr) = kget l (nkids ni);
+  sim_pend : forall id p l, In (id, (p, l)) (b_pend sr) ->
+               bfind id (b_marked sr) = None /\
+               exists ni, hget (b_heap si) p = Some ni /\ kget l (nkids ni) = Some (M id);
+  sim_marked : forall id x, bfind id (b_marked sr) = Some x -> M id = Some x;
+  sim_nodup : NoDup (map snd (b_pend sr));
+  sim_alloc : forall p n, hget (b_heap sr) p = Some n -> p < b_next sr;
+}.
+
+Lemma sim_exists_i sr si p n : Sim sr si -> hget (b_heap sr) p = Some n -> exists ni, hget (b_heap si) p = Some ni.
+Proof.
+  intros S H. assert (D := sim_dom _ _ S p). rewrite H in D.
+  destruct (hget (b_heap si) p); [eauto | contradiction].
+Qed.
+Lemma sim_exists_r sr si p n : Sim sr si -> hget (b_heap si) p = Some n -> exists nr, hget (b_heap sr) p = Some nr.
+Proof.
+  intros S H. assert (D := sim_dom _ _ S p). rewrite H in D.
+  destruct (hget (b_heap sr) p); [eauto | contradiction].
+Qed.
+Lemma sim_fresh sr si sl : Sim sr si -> b_next sr <= fst sl -> ~ pending sr sl.
+Proof.
+  intros S Hle [id Hin]. destruct sl as [p l].
+  destruct (sim_pend _ _ S _ _ _ Hin) as [_ [ni [Hi _]]].
+  destruct (sim_exists_r _ _ _ _ S Hi) as [nr Hr].
+  assert (p < b_next sr) by (eapply sim_alloc; eauto). simpl in Hle. lia.
+Qed.
+
+(* allocation *)
+Lemma sim_alloc_op sr si k ks :
+  Sim sr si -> fst (b_alloc k ks sr) = fst (b_alloc k ks si) /\ Sim (snd (b_alloc k ks sr)) (snd (b_alloc k ks si)).
+Proof.
+  intro S. unfold b_alloc. simpl. split; [apply (sim_next _ _ S)|].
+  assert (Hn := sim_next _ _ S).
+  constructor; simpl.
+  - rewrite Hn. reflexivity.
+  - apply (sim_root _ _ S).
+  - intro p. rewrite <- Hn. destruct (p =? b_next sr); [reflexivity | apply (sim_dom _ _ S)].
+  - intros p l nr ni. rewrite <- Hn. destruct (p =? b_next sr) eqn:E.
+    + intros H1 H2 _. inversion H1; inversion H2; subst. reflexivity.
+    + intros H1 H2 Hp. eapply (sim_slot _ _ S); eauto.
+  - intros id p l Hin. destruct (sim_pend _ _ S _ _ _ Hin) as [Hm [ni [Hi Hk]]]. split; [exact Hm|].
+    rewrite <- Hn. destruct (p =? b_next sr) eqn:E.
+    + apply N.eqb_eq in E. subst. destruct (sim_exists_r _ _ _ _ S Hi) as [nr Hr].
+      assert (b_next sr < b_next sr) by (eapply sim_alloc; eauto). lia.
+    + eauto.
+  - apply (sim_marked _ _ S).
+  - apply (sim_nodup _ _ S).
+  - intros p n. destruct (p =? b_next sr) eqn:E.
+    + apply N.eqb_eq in E. intros _. lia.
+    + intro H. assert (p < b_next sr) by (eapply sim_alloc; eauto). lia.
+Qed.
+
+(* the same write on both sides, to a slot no setter is waiting for *)
+Lemma sim_set sr si sl v : Sim sr si -> ~ pending sr sl -> Sim (b_set sl v sr) (b_set sl v si).
+Proof.
+  intros S Hnp. destruct sl as [p0 l0]. unfold b_set. simpl.
+  constructor; simpl.
+  - apply (sim_next _ _ S).
+  - apply (sim_root _ _ S).
+  - intro p. assert (D := sim_dom _ _ S p). destruct (N.eq_dec p0 p) as [->|Hne].
+    + rewrite !hget_hupd_same. destruct (hget (b_heap sr) p), (hget (b_heap si) p); simpl; auto.
+    + rewrite !hget_hupd_other by exact Hne. exact D.
+  - intros p l nr ni. destruct (N.eq_dec p0 p) as [->|Hne].
+    + rewrite !hget_hupd_same.
+      destruct (hget (b_heap sr) p) as [nr0|] eqn:Er; [|discriminate].
+      destruct (hget (b_heap si) p) as [ni0|] eqn:Ei; [|discriminate].
+      simpl. intros H1 H2 Hp. inversion H1; inversion H2; subst. simpl.
+      destruct (label_eqb l0 l) eqn:El.
+      * apply label_eqb_eq in El. subst. rewrite !kget_kset_same. reflexivity.
+      * assert (l0 <> l) by (intro; subst; rewrite label_eqb_refl in El; discriminate).
+        rewrite !kget_kset_other by assumption. eapply (sim_slot _ _ S); eauto.
+    + rewrite !hget_hupd_other by exact Hne. apply (sim_slot _ _ S).
+  - intros id p l Hin. destruct (sim_pend _ _ S _ _ _ Hin) as [Hm [ni [Hi Hk]]]. split; [exact Hm|].
+    destruct (N.eq_dec p0 p) as [->|Hne].
+    + rewrite hget_hupd_same, Hi. simpl. eexists. split; [reflexivity|]. simpl.
+      rewrite kget_kset_other; [exact Hk|]. intros ->. apply Hnp. exists id. exact Hin.
+    + rewrite hget_hupd_other by exact Hne. eauto.
+  - apply (sim_marked _ _ S).
+  - apply (sim_nodup _ _ S).
+  - intros p n. destruct (N.eq_dec p0 p) as [->|Hne].
+    + rewrite hget_hupd_same. destruct (hget (b_heap sr) p) eqn:E; [|discriminate]. intros _. eapply sim_alloc; eauto.
+    + rewrite hget_hupd_other by exact Hne. apply (sim_alloc _ _ S).
+Qed.
+
+Lemma sim_payload sr si p0 z : Sim sr si -> Sim (b_payload p0 z sr) (b_payload p0 z si).
+Proof.
+  intro S. unfold b_payload. constructor; simpl.
+  - apply (sim_next _ _ S).
+  - apply (sim_root _ _ S).
+  - intro p. assert (D := sim_dom _ _ S p). destruct (N.eq_dec p0 p) as [->|Hne].
+    + rewrite !hget_hupd_same. destruct (hget (b_heap sr) p), (hget (b_heap si) p); simpl; auto.
+    + rewrite !hget_hupd_other by exact Hne. exact D.
+  - intros p l nr ni. destruct (N.eq_dec p0 p) as [->|Hne].
+    + rewrite !hget_hupd_same.
+      destruct (hget (b_heap sr) p) as [nr0|] eqn:Er; [|discriminate].
+      destruct (hget (b_heap si) p) as [ni0|] eqn:Ei; [|discriminate].
+      simpl. intros H1 H2 Hp. inversion H1; inversion H2; subst. simpl. eapply (sim_slot _ _ S); eauto.
+    + rewrite !hget_hupd_other by exact Hne. apply (sim_slot _ _ S).
+  - intros id p l Hin. destruct (sim_pend _ _ S _ _ _ Hin) as [Hm [ni [Hi Hk]]]. split; [exact Hm|].
+    destruct (N.eq_dec p0 p) as [->|Hne].
+    + rewrite hget_hupd_same, Hi. simpl. eexists. split; [reflexivity|]. exact Hk.
+    + rewrite hget_hupd_other by exact Hne. eauto.
+  - apply (sim_marked _ _ S).
+  - apply (sim_nodup _ _ S).
+  - intros p n. destruct (N.eq_dec p0 p) as [->|Hne].
+    + rewrite hget_hupd_same. destruct (hget (b_heap sr) p) eqn:E; [|discriminate]. intros _. eapply sim_alloc; eauto.
+    + rewrite hget_hupd_other by exact Hne. apply (sim_alloc _ _ S).
+Qed.
+
+Lemma sim_set_root sr si v :
+  Sim sr si ->
+  Sim (mkB (b_heap sr) (b_next sr) (b_marked sr) (b_pend sr) (Some v))
+      (mkB (b_heap si) (b_next si) (b_marked si) (b_pend si) (Some v)).
+Proof.
+  intro S. constructor; simpl; try apply S. reflexivity.
+Qed.
+
+(* a reference: resolved at once on both sides, or deferred on the real side *)
+Lemma sim_ref sr si id sl :
+  Sim sr si -> ~ pending sr sl -> (exists n, hget (b_heap sr) (fst sl) = Some n) ->
+  Sim (b_ref id sl sr) (oref_i id sl si).
+Proof.
+  intros S Hnp [n0 Hn0]. unfold b_ref, oref_i.
+  destruct (bfind id (b_marked sr)) as [x|] eqn:Em.
+  - rewrite (sim_marked _ _ S _ _ Em). apply sim_set; assumption.
+  - destruct sl as [p0 l0]. simpl in Hn0.
+    destruct (sim_exists_i _ _ _ _ S Hn0) as [ni0 Hi0].
+    unfold b_set. constructor; simpl.
+    + apply (sim_next _ _ S).
+    + apply (sim_root _ _ S).
+    + intro p. assert (D := sim_dom _ _ S p). destruct (N.eq_dec p0 p) as [->|Hne].
+      * rewrite hget_hupd_same. destruct (hget (b_heap sr) p), (hget (b_heap si) p); simpl; auto.
+      * rewrite hget_hupd_other by exact Hne. exact D.
+    + intros p l nr ni H1 H2 Hp.
+      assert (Hp' : ~ pending sr (p, l)).
+      { intros [id' Hin]. apply Hp. exists id'. simpl. apply in_or_app. left. exact Hin. }
+      destruct (N.eq_dec p0 p) as [->|Hne].
+      * rewrite hget_hupd_same, Hi0 in H2. simpl in H2. inversion H2; subst. simpl.
+        assert (l0 <> l).
+        { intros ->. apply Hp. exists id. simpl. apply in_or_app. right. left. reflexivity. }
+        rewrite kget_kset_other by assumption. eapply (sim_slot _ _ S); eauto.
+      * rewrite hget_hupd_other in H2 by exact Hne. eapply (sim_slot _ _ S); eauto.
+    + intros id' p l Hin. apply in_app_or in Hin. destruct Hin as [Hin|[Heq|[]]].
+      * destruct (sim_pend _ _ S _ _ _ Hin) as [Hm [ni [Hi Hk]]]. split; [exact Hm|].
+        destruct (N.eq_dec p0 p) as [->|Hne].
+        -- rewrite hget_hupd_same, Hi. simpl. eexists. split; [reflexivity|]. simpl.
+           rewrite kget_kset_other; [exact Hk|]. intros ->. apply Hnp. exists id'. exact Hin.
+        -- rewrite hget_hupd_other by exact Hne. eauto.
+      * inversion Heq; subst. split; [exact Em|].
+        rewrite hget_hupd_same, Hi0. simpl. eexists. split; [reflexivity|]. simpl. apply kget_kset_same.
+    + apply (sim_marked _ _ S).
+    + rewrite map_app. simpl. apply NoDup_app_single.
+      * apply (sim_nodup _ _ S).
+      * intro Hin. apply in_map_iff in Hin. destruct Hin as [[id' sl'] [Heq Hin]]. simpl in Heq. subst.
+        apply Hnp. exists id'. exact Hin.
+    + apply (sim_alloc _ _ S).
+Qed.
+
+(* NotifyMarker: the setters that were waiting for id run now *)
+Definition resolve (id : bytes) (x : addr) (pend : list (bytes * slot)) (s : bst) : bst :=
+  fold_left (fun st (e : bytes * slot) => if bytes_eqb id (fst e) then b_set (snd e) (Some x) st else st) pend s.
+Definition hit (id : bytes) (pend : list (bytes * slot)) (p : addr) (l : label) : bool :=
+  existsb (fun e : bytes * slot => bytes_eqb id (fst e) && (fst (snd e) =? p) && label_eqb (snd (snd e)) l) pend.
+
+Lemma resolve_fields id x pend : forall s,
+  b_next (resolve id x pend s) = b_next s /\ b_marked (resolve id x pend s) = b_marked s /\
+  b_pend (resolve id x pend s) = b_pend s /\ b_root (resolve id x pend s) = b_root s.
+Proof.
+  induction pend as [|e pend IH]; intro s; simpl; [auto|].
+  destruct (IH (if bytes_eqb id (fst e) then b_set (snd e) (Some x) s else s)) as [H1 [H2 [H3 H4]]].
+  unfold resolve in *. rewrite H1, H2, H3, H4. destruct (bytes_eqb id (fst e)); simpl; auto.
+Qed.
+
+Lemma resolve_heap id x pend : forall s p,
+  match hget (b_heap (resolve id x pend s)) p, hget (b_heap s) p with
+  | Some n', Some n => nkind n' = nkind n /\
+                       forall l, kget l (nkids n') = if hit id pend p l then Some (Some x) else kget l (nkids n)
+  | None, None => True
+  | _, _ => False
+  end.
+Proof.
+  induction pend as [|e pend IH]; intros s p; simpl.
+  - destruct (hget (b_heap s) p); auto.
+  - specialize (IH (if bytes_eqb id (fst e) then b_set (snd e) (Some x) s else s) p).
+    unfold resolve in *. simpl.
+    destruct (bytes_eqb id (fst e)) eqn:Eid; simpl.
+    + destruct e as [id' [p0 l0]]. simpl in *. unfold b_set in IH. simpl in IH.
+      destruct (N.eq_dec p0 p) as [->|Hne].
+      * rewrite N.eqb_refl. rewrite hget_hupd_same in IH.
+        destruct (hget (b_heap s) p) as [n|]; simpl in IH.
+        -- destruct (hget (b_heap (fold_left _ pend _)) p) as [n'|]; [|contradiction].
+           destruct IH as [Hk Hl]. split; [exact Hk|]. intro l. rewrite Hl. simpl.
+           destruct (hit id pend p l); [rewrite orb_true_r; reflexivity|]. rewrite orb_false_r.
+           destruct (label_eqb l0 l) eqn:El.
+           ++ apply label_eqb_eq in El. subst. apply kget_kset_same.
+           ++ apply kget_kset_other. intros ->. rewrite label_eqb_refl in El. discriminate.
+        -- exact IH.
+      * rewrite hget_hupd_other in IH by exact Hne.
+        assert (E : (p0 =? p) = false) by (apply N.eqb_neq; exact Hne). rewrite E. simpl. exact IH.
+    + exact IH.
+Qed.
+
+Lemma NoDup_map_filter {A B} (f : A -> B) (q : A -> bool) l : NoDup (map f l) -> NoDup (map f (filter q l)).
+Proof.
+  induction l as [|x l IH]; simpl; intro H; [constructor|].
+  inversion H; subst. destruct (q x); simpl; [|apply IH; assumption].
+  constructor; [|apply IH; assumption].
+  intro Hin. apply in_map_iff in Hin. destruct Hin as [y [Hy Hin]]. apply filter_In in Hin. destruct Hin as [Hin _].
+  apply H2. rewrite <- Hy. apply in_map. exact Hin.
+Qed.
+
+Lemma hit_pending id sr p l : hit id (b_pend sr) p l = true -> In (id, (p, l)) (b_pend sr).
+Proof.
+  unfold hit. rewrite existsb_exists. intros [[id' [p' l']] [Hin He]]. simpl in He.
+  apply andb_true_iff in He. destruct He as [He Hl]. apply andb_true_iff in He. destruct He as [Hi Hp].
+  apply bytes_eqb_eq in Hi. apply N.eqb_eq in Hp. apply label_eqb_eq in Hl. subst. exact Hin.
+Qed.
+Lemma pending_hit id sr p l : In (id, (p, l)) (b_pend sr) -> hit id (b_pend sr) p l = true.
+Proof.
+  intro Hin. unfold hit. rewrite existsb_exists. exists (id, (p, l)). split; [exact Hin|]. simpl.
+  rewrite bytes_eqb_refl, N.eqb_refl, label_eqb_refl. reflexivity.
+Qed.
+
+Lemma b_mark_unfold id x s :
+  b_mark id x s =
+  mkB (b_heap (resolve id x (b_pend s) s)) (b_next s) ((id, x) :: b_marked s)
+      (filter (fun e : bytes * slot => negb (bytes_eqb id (fst e))) (b_pend s)) (b_root s).
+Proof.
+  unfold b_mark. fold (resolve id x (b_pend s) s).
+  destruct (resolve_fields id x (b_pend s) s) as [H1 [_ [_ H4]]]. rewrite H1, H4. reflexivity.
+Qed.
+
+Lemma sim_mark sr si id x :
+  Sim sr si -> M id = Some x -> bfind id (b_marked sr) = None -> Sim (b_mark id x sr) (omark_i id x si).
+Proof.
+  intros S HM Hun. unfold omark_i. rewrite b_mark_unfold.
+  constructor; simpl.
+  - apply (sim_next _ _ S).
+  - apply (sim_root _ _ S).
+  - intro p. assert (R := resolve_heap id x (b_pend sr) sr p). assert (D := sim_dom _ _ S p).
+    destruct (hget (b_heap (resolve id x (b_pend sr) sr)) p) as [n'|], (hget (b_heap sr) p) as [n|]; try contradiction.
+    + destruct (hget (b_heap si) p); [|contradiction]. destruct R as [R _]. congruence.
+    + exact D.
+  - intros p l nr ni H1 H2 Hp.
+    assert (R := resolve_heap id x (b_pend sr) sr p). rewrite H1 in R.
+    destruct (hget (b_heap sr) p) as [n|] eqn:Er; [|contradiction].
+    destruct R as [_ R]. rewrite R.
+    destruct (hit id (b_pend sr) p l) eqn:Eh.
+    + apply hit_pending in Eh. destruct (sim_pend _ _ S _ _ _ Eh) as [_ [ni' [Hi Hk]]].
+      rewrite H2 in Hi. inversion Hi; subst. rewrite Hk, HM. reflexivity.
+    + eapply (sim_slot _ _ S); eauto.
+      intros [id' Hin]. destruct (bytes_eqb id id') eqn:Eid.
+      * apply bytes_eqb_eq in Eid. subst. rewrite (pending_hit _ _ _ _ Hin) in Eh. discriminate.
+      * apply Hp. exists id'. simpl. apply filter_In. split; [exact Hin|]. simpl. rewrite Eid. reflexivity.
+  - intros id' p l Hin. apply filter_In in Hin. destruct Hin as [Hin Hne]. simpl in Hne.
+    destruct (sim_pend _ _ S _ _ _ Hin) as [Hm Hi]. split; [|exact Hi].
+    destruct (bytes_eqb id' id) eqn:E; [|exact Hm].
+    apply bytes_eqb_eq in E. subst. rewrite bytes_eqb_refl in Hne. discriminate.
+  - intros id' x'. destruct (bytes_eqb id' id) eqn:E.
+    + apply bytes_eqb_eq in E. subst. intro H. inversion H; subst. exact HM.
+    + apply (sim_marked _ _ S).
+  - apply NoDup_map_filter. apply (sim_nodup _ _ S).
+  - intros p n H. assert (R := resolve_heap id x (b_pend sr) sr p). rewrite H in R.
+    destruct (hget (b_heap sr) p) eqn:Er; [|contradiction]. eapply sim_alloc; eauto.
+Qed.
+
+(* ---- the shape of a call tree that matters to the builder ---- *)
+
+Definition kids_size (ks : list (label * tm)) (sz : tm -> N) : N :=
+  fold_right (fun (lt : label * tm) acc => sz (snd lt) + acc) 0 ks.
+Fixpoint tm_size (t : tm) : N :=
+  match t with
+  | TNode _ _ _ kids => 1 + fold_right (fun (lt : label * tm) acc => tm_size (snd lt) + acc) 0 kids
+  | _ => 0
+  end.
+(* marker ids, as the builder sees them *)
+Fixpoint tm_bids (t : tm) : list bytes :=
+  match t with
+  | TNode _ m _ kids =>
+      (match m with Some id => [dec_bytes id] | None => [] end) ++ flat_map (fun lt : label * tm => tm_bids (snd lt)) kids
+  | _ => []
+  end.
+Definition kids_bids (ks : list (label * tm)) : list bytes := flat_map (fun lt : label * tm => tm_bids (snd lt)) ks.
+
+Section KidsAt.
+Context {A : Type}.
+Variable g : tm -> addr -> list A.
+Fixpoint kids_at (ks : list (label * tm)) (nx : addr) : list A :=
+  match ks with
+  | [] => []
+  | lt :: r => g (snd lt) nx ++ kids_at r (nx + tm_size (snd lt))
+  end.
+End KidsAt.
+(* the address each marked object gets when the tree is built starting at address next *)
+Fixpoint marks_at (t : tm) (next : addr) : list (bytes * addr) :=
+  match t with
+  | TNode _ m _ kids =>
+      (match m with Some id => [(dec_bytes id, next)] | None => [] end) ++ kids_at marks_at kids (next + 1)
+  | _ => []
+  end.
+
+Fixpoint slice_seq (n : N) (ks : list (label * tm)) : Prop :=
+  match ks with
+  | [] => True
+  | (l, t) :: r => l = LI n /\ is_omit t = false /\ slice_seq (n + 1) r
+  end.
+Definition kids_ok (k : kind) (kids : list (label * tm)) : Prop :=
+  NoDup (map fst kids) /\
+  match k with
+  | KStruct _ => forall l t, In (l, t) kids -> exists i, l = LF i /\ i < 5
+  | KSlice => slice_seq 0 kids
+  | KMap => forall l t, In (l, t) kids -> exists z, l = LK z
+  end.
+Fixpoint tm_wf (t : tm) : Prop :=
+  match t with
+  | TNode _ _ k kids =>
+      kids_ok k kids /\
+      (fix all (ks : list (label * tm)) : Prop := match ks with [] => True | lt :: r => tm_wf (snd lt) /\ all r end) kids
+  | _ => True
+  end.
+Lemma tm_wf_node a m k kids :
+  tm_wf (TNode a m k kids) <-> kids_ok k kids /\ Forall (fun lt : label * tm => tm_wf (snd lt)) kids.
+Proof.
+  cbn [tm_wf]. split; intros [H1 H2]; (split; [exact H1|]); clear H1.
+  - induction kids as [|lt r IH]; [constructor|]. destruct H2 as [Ha Hb]. constructor; [exact Ha | apply IH; exact Hb].
+  - induction kids as [|lt r IH]; [exact I|]. inversion H2; subst. split; [assumption | apply IH; assumption].
+Qed.
+
+(* the labels a container frame will meet *)
+Definition kids_fit (cf : bframe) (kids : list (label * tm)) : Prop :=
+  match cf with
+  | FStructKey _ => forall l t, In (l, t) kids -> exists i, l = LF i /\ i < 5
+  | FSlice _ n => slice_seq n kids
+  | FMapKey _ => forall l t, In (l, t) kids -> exists z, l = LK z
+  | _ => False
+  end.
+
+Lemma field_find_self i : i < 5 -> exists t, field_find (field_label_name (LF i)) 0 fields = Some (LF i, t).
+Proof.
+  intro Hi. assert (i = 0 \/ i = 1 \/ i = 2 \/ i = 3 \/ i = 4) as [-> | [-> | [-> | [-> | ->]]]] by lia;
+    vm_compute; eauto.
+Qed.
+
+Lemma kids_fit_step cf p l t r :
+  frame_addr cf = Some p -> kids_fit cf ((l, t) :: r) -> is_omit t = false ->
+  exists vf, kid_frame cf l = Some vf /\ slot_of vf = Some (p, l) /\ kids_fit (next_frame vf) r /\
+             frame_addr (next_frame vf) = Some p.
+Proof.
+  intros Hp Hf Ho. destruct cf; simpl in Hp; try discriminate; inversion Hp; subst; simpl in Hf.
+  - destruct (Hf l t (or_introl eq_refl)) as [i [-> Hi]]. destruct (field_find_self i Hi) as [ty E].
+    exists (FStructVal p (LF i) ty). unfold kid_frame. rewrite E. simpl. repeat split; try reflexivity.
+    intros l0 t0 Hin. apply (Hf l0 t0). right. exact Hin.
+  - destruct Hf as [-> [_ Hs]]. exists (FSlice p n). simpl. repeat split; try reflexivity. exact Hs.
+  - destruct (Hf l t (or_introl eq_refl)) as [z ->]. exists (FMapVal p z). simpl. repeat split; try reflexivity.
+    intros l0 t0 Hin. apply (Hf l0 t0). right. exact Hin.
+Qed.
+Lemma kids_fit_skip cf l t r : kids_fit cf ((l, t) :: r) -> is_omit t = true -> kids_fit cf r.
+Proof.
+  intros Hf Ho. destruct cf; simpl in *; try contradiction.
+  - intros l0 t0 Hin. apply (Hf l0 t0). right. exact Hin.
+  - destruct Hf as [_ [Hno _]]. congruence.
+  - intros l0 t0 Hin. apply (Hf l0 t0). right. exact Hin.
+Qed.
+
+(* ---- small facts about the primitive operations ---- *)
+Lemma b_set_keep sl v s p n : hget (b_heap s) p = Some n -> exists n', hget (b_heap (b_set sl v s)) p = Some n'.
+Proof.
+  intro H. unfold b_set. simpl. destruct (N.eq_dec (fst sl) p) as [E|E].
+  - rewrite E, hget_hupd_same, H. simpl. eauto.
+  - rewrite hget_hupd_other by exact E. eauto.
+Qed.
+Lemma b_ref_keep id sl s p n : hget (b_heap s) p = Some n -> exists n', hget (b_heap (b_ref id sl s)) p = Some n'.
+Proof.
+  intro H. unfold b_ref. destruct (bfind id (b_marked s)); [apply b_set_keep with (n := n); exact H | simpl; eauto].
+Qed.
+Lemma b_ref_pend id sl s e : In e (b_pend (b_ref id sl s)) -> In e (b_pend s) \/ e = (id, sl).
+Proof.
+  unfold b_ref. destruct (bfind id (b_marked s)); simpl; [auto|].
+  intro H. apply in_app_or in H. destruct H as [H|[H|[]]]; auto.
+Qed.
+Lemma b_ref_fields id sl s : b_next (b_ref id sl s) = b_next s /\ b_marked (b_ref id sl s) = b_marked s.
+Proof. unfold b_ref. destruct (bfind id (b_marked s)); simpl; auto. Qed.
+Lemma b_mark_keep id x s p n : hget (b_heap s) p = Some n -> exists n', hget (b_heap (b_mark id x s)) p = Some n'.
+Proof.
+  intro H. rewrite b_mark_unfold. simpl. assert (R := resolve_heap id x (b_pend s) s p). rewrite H in R.
+  destruct (hget (b_heap (resolve id x (b_pend s) s)) p); [eauto | contradiction].
+Qed.
+
+Definition dst_ok (f : bframe) (sr : bst) : Prop :=
+  match slot_of f with
+  | Some sl => (exists n, hget (b_heap sr) (fst sl) = Some n) /\ ~ pending sr sl
+  | None => True
+  end.
+
+Lemma sim_deliver sr si v f f' sr' :
+  Sim sr si -> dst_ok f sr -> deliver v f sr = Some (f', sr') ->
+  exists si', deliver v f si = Some (f', si') /\ Sim sr' si' /\
+              b_next sr' = b_next sr /\ b_pend sr' = b_pend sr /\ b_marked sr' = b_marked sr /\
+              (forall p n, hget (b_heap sr) p = Some n -> exists n', hget (b_heap sr') p = Some n').
+Proof.
+  intros S Hd H. unfold dst_ok in Hd.
+  destruct f; simpl in H; try discriminate; simpl in Hd.
+  - inversion H; subst. eexists. split; [reflexivity|]. split; [apply sim_set_root; exact S|]. simpl. repeat split; eauto.
+  - destruct Hd as [_ Hnp].
+    destruct v as [x|]; [| destruct t].
+    + inversion H; subst. exists (b_set (p, l) (Some x) si). split; [destruct t; reflexivity|].
+      split; [apply sim_set; assumption|]. repeat split; try reflexivity; intros; eapply b_set_keep; eauto.
+    + inversion H; subst. exists (b_set (p, l) None si). split; [reflexivity|].
+      split; [apply sim_set; assumption|]. repeat split; try reflexivity; intros; eapply b_set_keep; eauto.
+    + inversion H; subst. exists si. split; [reflexivity|]. split; [exact S|]. repeat split; eauto.
+    + discriminate.
+  - destruct Hd as [_ Hnp]. inversion H; subst. eexists. split; [reflexivity|].
+    split; [apply sim_set; assumption|]. repeat split; try reflexivity; intros; eapply b_set_keep; eauto.
+  - destruct Hd as [_ Hnp]. inversion H; subst. eexists. split; [reflexivity|].
+    split; [apply sim_set; assumption|]. repeat split; try reflexivity; intros; eapply b_set_keep; eauto.
+Qed.
+
+End Sim.
